@@ -11,6 +11,7 @@ import (
 	_ "github.com/google/pprof/verif/checks/c07"
 	_ "github.com/google/pprof/verif/checks/c08"
 	_ "github.com/google/pprof/verif/checks/c09"
+	_ "github.com/google/pprof/verif/checks/c10"
 	_ "github.com/google/pprof/verif/checks/c11"
 	_ "github.com/google/pprof/verif/checks/c12"
 	_ "github.com/google/pprof/verif/checks/c13"
